@@ -26,6 +26,8 @@ EXTENDS Shake, Json
 VO == "{ valueOf() { P(); return 1 } }"
 TS == "{ toString() { P(); return 's' } }"
 IT == "{ [Symbol.iterator]() { P(); return [][Symbol.iterator]() } }"
+\* both conversions present: which one runs (and only that one) is observable
+BOTH == "{ toString() { P('F:ts'); return 's' }, valueOf() { P('F:vo'); return 1 } }"
 
 \* <<id, syntax, truth, throws, position label, text>>
 ExprForms == <<
@@ -36,6 +38,7 @@ ExprForms == <<
   <<"obj_value",         "yes", FALSE, "object", "{ a: 1, b: P() }">>,
   <<"obj_computed_key",  "yes", FALSE, "object", "{ [P()]: 1 }">>,
   <<"obj_computed_coerce", "yes", FALSE, "object", "{ [" \o TS \o "]: 1 }">>,
+  <<"obj_computed_both", "yes", FALSE, "object", "{ [" \o BOTH \o "]: 1 }">>,
   <<"obj_computed_lit",  "no",  FALSE, "object", "{ ['k']: 1, [1]: 2, [Symbol.iterator]: 3 }">>,
   <<"obj_computed_method", "yes", FALSE, "object", "{ [P()]() {} }">>,
   <<"obj_computed_getter", "yes", FALSE, "object", "{ get [P()]() { return 1 } }">>,
@@ -54,6 +57,7 @@ ExprForms == <<
   \* ---- template literals
   <<"tpl_hole_call",     "yes", FALSE, "template", "`a${P()}b`">>,
   <<"tpl_hole_tostring", "yes", FALSE, "template", "`a${" \o TS \o "}`">>,
+  <<"tpl_hole_both",     "yes", FALSE, "template", "`a${" \o BOTH \o "}`">>,
   <<"tpl_hole_valueof",  "no",  FALSE, "template", "`a${{ valueOf() { P(); return 1 } }}`">>,
   <<"tpl_hole_prim",     "no",  FALSE, "template", "`a${1}${'s'}${null}${1n}${true}${void 0}`">>,
   <<"tpl_hole_typeof",   "no",  FALSE, "template", "`${typeof GX}${!0}${1 === 2}`">>,
@@ -67,6 +71,7 @@ ExprForms == <<
   \* ---- coercions (valueOf / toString) by operator class
   <<"co_plus",           "yes", FALSE, "coercion", VO \o " + 1">>,
   <<"co_plus_str",       "yes", FALSE, "coercion", "'' + " \o TS>>,
+  <<"co_plus_both",      "yes", FALSE, "coercion", BOTH \o " + ''">>,
   <<"co_minus",          "yes", FALSE, "coercion", VO \o " - 1">>,
   <<"co_mul",            "yes", FALSE, "coercion", "2 * " \o VO>>,
   <<"co_exp",            "yes", FALSE, "coercion", VO \o " ** 2">>,
@@ -216,6 +221,7 @@ StmtForms == <<
   <<"cls_computed_static_field", "yes", FALSE, "class", FALSE, "class K { static [P()] = 1 }">>,
   <<"cls_computed_instance_field", "yes", FALSE, "class", FALSE, "class K { [P()] = 1 }">>,
   <<"cls_computed_coerce", "yes", FALSE, "class", FALSE, "class K { [" \o TS \o "]() {} }">>,
+  <<"cls_computed_both",  "yes", FALSE, "class", FALSE, "class K { [" \o BOTH \o "]() {} }">>,
   <<"cls_computed_lit",   "no",  FALSE, "class", FALSE, "class K { ['m']() {} static [1] = 2; [Symbol.iterator]() {} }">>,
   <<"cls_extends_call",   "yes", FALSE, "extends", FALSE, "class K extends (P(), Object) {}">>,
   <<"cls_extends_local",  "no",  FALSE, "extends", FALSE, "class B {}\nclass K extends B {}">>,
@@ -228,6 +234,12 @@ StmtForms == <<
   <<"cls_static_getter_read", "yes", FALSE, "class", FALSE, "class K { static get g() { return P() } static f = K.g }">>,
   <<"fn_default_param",   "no",  FALSE, "function", FALSE, "function f(a = P(), { b = P() } = {}) { P() }">>,
   <<"fn_default_called",  "yes", FALSE, "function", FALSE, "function f(a = P()) {}\nf()">>,
+  <<"fn_empty_arg",       "yes", FALSE, "function", FALSE, "function f() {}\nf(P())">>,
+  <<"fn_empty_spread",    "yes", FALSE, "function", FALSE, "function f() {}\nf(..." \o IT \o ")">>,
+  <<"fn_empty_destr",     "yes", TRUE,  "function", FALSE, "function f({ a }) {}\nf()">>,
+  <<"fn_empty_new",       "yes", FALSE, "function", FALSE, "function f(a = P()) {}\nnew f()">>,
+  <<"fn_identity_arg",    "yes", FALSE, "function", FALSE, "function id(x) { return x }\nid(P())">>,
+  <<"fn_identity_default", "yes", FALSE, "function", FALSE, "function id(x = P()) { return x }\nid()">>,
   <<"fn_generator",       "no",  FALSE, "function", FALSE, "function* f(a = P()) { yield P() }">>,
   <<"fn_async",           "no",  FALSE, "function", FALSE, "async function f(a = P()) { await P() }">>,
   <<"destr_obj_default",  "yes", FALSE, "destructuring", FALSE, "const { a = P() } = {}">>,
